@@ -30,6 +30,8 @@ var (
 	tF2 = reflect.TypeOf((func(int64, string) (int64, string))(nil))
 	tF0 = reflect.TypeOf((func())(nil))
 	tFB = reflect.TypeOf((func(x interface{}) bool)(nil))
+	tFU = reflect.TypeOf((func(int64) uint64)(nil))
+	tFW = reflect.TypeOf((func(int64) (uint, []uint64))(nil))
 )
 
 var dFuncs = func() []dFunc {
@@ -44,6 +46,8 @@ var dFuncs = func() []dFunc {
 			ArgSets: [][]interface{}{{}, {int64(1)}, {int64(1), "a"}, {nil, 2.5, []int64{1}}}},
 		{Name: "func(int64, string) (int64, string)", T: tF2, Params: "a, b", Rec: "rec(a)\nrec(b)",
 			ArgSets: [][]interface{}{{int64(5), "s"}, {int64(0), ""}}},
+		{Name: nFU, T: tFU, Params: "x", Rec: "rec(x)", ArgSets: [][]interface{}{{int64(5)}}},
+		{Name: nFW, T: tFW, Params: "x", Rec: "rec(x)", ArgSets: [][]interface{}{{int64(5)}}},
 		{Name: "func()", T: tF0, Params: "", Rec: "rec(\"called\")", ArgSets: [][]interface{}{{}}},
 		fb,
 	}
@@ -87,12 +91,14 @@ const (
 	nF2 = "func(int64, string) (int64, string)"
 	nF0 = "func()"
 	nFB = "func(interface{}) bool"
+	nFU = "func(int64) uint64"
+	nFW = "func(int64) (uint, []uint64)"
 )
 
 var dBodies = []dBody{
 	{Name: "echo",
-		Src: map[string]string{nF1: `return x`, nFV: `return [len(xs), nil]`, nF2: `return [a, b]`, nF0: ``, nFB: `return true`},
-		Ret: map[string]dReturn{nF1: {Echo: true}, nFV: {Echo: true}, nF2: {Echo: true}, nF0: {Echo: true}, nFB: {Scalar: true, Vals: []interface{}{true}}}},
+		Src: map[string]string{nF1: `return x`, nFV: `return [len(xs), nil]`, nF2: `return [a, b]`, nF0: ``, nFB: `return true`, nFU: `return 5`},
+		Ret: map[string]dReturn{nF1: {Echo: true}, nFV: {Echo: true}, nF2: {Echo: true}, nF0: {Echo: true}, nFB: {Scalar: true, Vals: []interface{}{true}}, nFU: {Scalar: true, Vals: []interface{}{int64(5)}}}},
 	{Name: "echo-multi-return",
 		Src: map[string]string{nF2: `return a, b`, nFV: `return len(xs), nil`},
 		Ret: map[string]dReturn{nF2: {Echo: true}, nFV: {Echo: true}}},
@@ -102,6 +108,16 @@ var dBodies = []dBody{
 	{Name: "convertible",
 		Src: map[string]string{nF1: `return 2.5`, nFV: `return [2.5, nil]`, nF2: `return [2.5, 66]`},
 		Ret: map[string]dReturn{nF1: {Scalar: true, Vals: []interface{}{2.5}}, nFV: {Vals: []interface{}{2.5, nil}}, nF2: {Vals: []interface{}{2.5, int64(66)}}}},
+	// float results for unsigned result types, at and beyond the int64 range
+	{Name: "float-small",
+		Src: map[string]string{nFU: `return 2.5`, nFW: `return [2.5, [2.5, 7]]`},
+		Ret: map[string]dReturn{nFU: {Scalar: true, Vals: []interface{}{2.5}}, nFW: {Vals: []interface{}{2.5, []interface{}{2.5, int64(7)}}}}},
+	{Name: "float-above-int64",
+		Src: map[string]string{nFU: `return 10000000000000000000.0`, nFW: `return [9223372036854777856.0, [10000000000000000000.0, 9223372036854777856.0]]`},
+		Ret: map[string]dReturn{nFU: {Scalar: true, Vals: []interface{}{float64(1e19)}}, nFW: {Vals: []interface{}{float64(9223372036854777856.0), []interface{}{float64(1e19), float64(9223372036854777856.0)}}}}},
+	{Name: "float-negative-or-too-large", // implementation-defined in Go: not compared
+		Src: map[string]string{nFU: `return -1.5`, nFW: `return [18446744073709551616.0, [-1.5]]`},
+		Ret: map[string]dReturn{nFU: {Scalar: true, Vals: []interface{}{float64(-1.5)}}, nFW: {Vals: []interface{}{float64(18446744073709551616.0), []interface{}{float64(-1.5)}}}}},
 	{Name: "unconvertible",
 		Src: map[string]string{nF1: `return "s"`, nFV: `return [1, "x"]`, nF2: `return ["t", 1]`, nFB: `return 1`},
 		Ret: map[string]dReturn{nF1: {Scalar: true, Vals: []interface{}{"s"}}, nFV: {Vals: []interface{}{int64(1), "x"}}, nF2: {Vals: []interface{}{"t", int64(1)}}, nFB: {Scalar: true, Vals: []interface{}{int64(1)}}}},
